@@ -639,4 +639,227 @@ theorem payoutStep_subIdx {s s' : State} {k : Time × Nat} (h : payoutStep s k =
     (payoutAdvance_addr _) (payoutAdvance_node _) (payoutAdvance_hours _))
   rw [hid]; rfl
 
+/-! ### settlement of a session: only `used` of one existing allocation changes -/
+
+theorem settleSession_frame {s s' : State} {x : Session} {acc node : Addr} {dep : Coin} {gb b a : Int}
+    (h : settleSession s x acc node dep gb b a = .ok s') : MoneyFrame s s' := by
+  unfold settleSession at h
+  simp only [bind_eq_ok, pure_eq_ok, requireP_eq_ok] at h
+  obtain ⟨price, _, prev, _, cur, _, payAmt, _, payment, _, reward, _, s1, h1, netAmt, _, _, _, s2, h2, rfl⟩ := h
+  exact ((sendCoinFromDepositToModule_frame h1).trans (sendCoinFromDepositToAccount_frame h2)).trans (MoneyFrame.emit _)
+
+/-- What an accepted `SessionInactiveHook` did. -/
+theorem sessionInactiveHook_eff {s s' : State} {id : Nat} {acc node : Addr} {bytes : Int}
+    (h : sessionInactiveHook s id acc node bytes = .ok s') :
+    ∃ x sub, s.sessions.get id = some x ∧ x.status = .StatusInactivePending ∧ s.subs.get x.sub = some sub ∧
+      ((isHourly sub = true ∧ s' = s) ∨
+       (isHourly sub = false ∧ ∃ a, s.allocs.get (sub.id, acc) = some a ∧
+          MoneyFrame (setAllocation s (allocAfterUse a (a.used + bytes))) s')) := by
+  unfold sessionInactiveHook at h
+  simp only [bind_eq_ok, require_eq_ok, orReject_eq_ok] at h
+  obtain ⟨x, hx, _, hst, sub, hsub, h⟩ := h
+  refine ⟨x, sub, hx, by simpa using hst, hsub, ?_⟩
+  split at h
+  · rename_i hh
+    rw [pure_eq_ok] at h; left; exact ⟨hh, h.symm⟩
+  · rename_i hh
+    simp only [bind_eq_ok, orReject_eq_ok] at h
+    obtain ⟨a, ha, used, hu, h⟩ := h
+    have hu' := SInt.add_eq_ok hu
+    subst hu'
+    right
+    refine ⟨by simpa using hh, a, ha, ?_⟩
+    split at h
+    · exact (MoneyFrame.emit _).trans (settleSession_frame h)
+    · rw [pure_eq_ok] at h; rw [← h]; exact MoneyFrame.emit _
+
+theorem SubIdxV.of_agree {v v' : SubView} (hi : SubIdxV v) (hag : ∀ i, AgreeAtV i v v') (hn : SubNodupV v') : SubIdxV v' :=
+  ⟨fun i => (hi.ids i).congr (hag i), hn⟩
+
+/-- Overwriting an existing allocation changes no membership. -/
+theorem setAllocV {v : SubView} {k : Nat × Addr} {a a' : Alloc} (hi : SubIdxV v) (hk : v.allocs.get k = some a) :
+    SubIdxV { v with allocs := v.allocs.set k a' } := by
+  refine hi.of_agree (fun i => ?_) ?_
+  · have hh : v.allocs.has k = true := Tbl.has_of_get hk
+    constructor <;> intros <;> simp [Tbl.has_set]
+    rename_i b
+    intro e; rw [← e]; exact hh
+  · obtain ⟨n1, n2, n3, n4, n5, n6, n7, n8, n9, n10, n11⟩ := hi.nodup
+    nodup_tac
+
+/-- Allocations are stored under their own (id, address) — a part of `CountInv`. -/
+def AllocKeyed (s : State) : Prop := ∀ i a al, s.allocs.get (i, a) = some al → al.id = i ∧ al.addr = a
+
+theorem CountInv.allocKeyed {s : State} (hc : CountInv s) : AllocKeyed s :=
+  fun i a al h => ⟨(hc.allocs i a al h).1, (hc.allocs i a al h).2.1⟩
+
+theorem sessionInactiveHook_subIdx {s s' : State} {id : Nat} {acc node : Addr} {bytes : Int}
+    (h : sessionInactiveHook s id acc node bytes = .ok s') (hc : AllocKeyed s) (hi : SubIdx s) : SubIdx s' := by
+  obtain ⟨x, sub, _, _, _, h | ⟨_, a, ha, hfr⟩⟩ := sessionInactiveHook_eff h
+  · rw [h.2]; exact hi
+  · obtain ⟨h1, h2⟩ := hc _ _ _ ha
+    refine SubIdxV.of_eq ?_ (setAllocV (k := (sub.id, acc)) (a' := allocAfterUse a (a.used + bytes)) hi.toV ha)
+    rw [subView_of_moneyFrame hfr]
+    unfold setAllocation allocAfterUse
+    simp only [h1, h2]
+    rfl
+
+/-- What `sessionStep` does. -/
+theorem sessionStep_eff {s s' : State} {k : Time × Nat} (h : sessionStep s k = .ok s') :
+    ∃ item, s.sessions.get k.2 = some item ∧
+      ((item.status = .StatusActive ∧ s' = sessionToPending s item) ∨
+       (item.status ≠ .StatusActive ∧ ∃ s2,
+          sessionInactiveHook { s with sessQ := s.sessQ.erase (item.inactiveAt, item.id) } item.id item.addr item.node
+            (item.up + item.down) = .ok s2 ∧ s' = removeSession s2 item)) := by
+  unfold sessionStep at h
+  simp only [bind_eq_ok, orPanic_eq_ok] at h
+  obtain ⟨item, hitem, h⟩ := h
+  refine ⟨item, hitem, ?_⟩
+  split at h
+  · rename_i hs
+    rw [pure_eq_ok] at h; left; exact ⟨hs, h.symm⟩
+  · rename_i hs
+    simp only [bind_eq_ok, pure_eq_ok, panicIfErr_eq_ok] at h
+    obtain ⟨bytes, hb, s2, h2, rfl⟩ := h
+    have hb' : bytes = item.up + item.down := SInt.add_eq_ok hb
+    subst hb'
+    right; exact ⟨hs, s2, h2, rfl⟩
+
+theorem sessionStep_subIdx {s s' : State} {k : Time × Nat} (h : sessionStep s k = .ok s') (hc : AllocKeyed s)
+    (hi : SubIdx s) : SubIdx s' := by
+  obtain ⟨item, _, ⟨_, rfl⟩ | ⟨_, s2, h2, rfl⟩⟩ := sessionStep_eff h
+  · exact SubIdx.of_view (s := s) rfl hi
+  · have i2 : SubIdx s2 := sessionInactiveHook_subIdx h2 (fun i a al hg => hc i a al hg) (SubIdx.of_view (s := s) rfl hi)
+    exact SubIdx.of_view (s := s2) rfl i2
+
+/-! ### removal of an expired subscription -/
+
+structure FreshV (v : SubView) (j : Nat) : Prop where
+  subs : v.subs.get j = none
+  subQ : ∀ t, v.subQ.has (t, j) = false
+  subForAcc : ∀ a, v.subForAcc.has (a, j) = false
+  subForNode : ∀ a, v.subForNode.has (a, j) = false
+  subForPlan : ∀ p, v.subForPlan.has (p, j) = false
+  allocs : ∀ a, v.allocs.has (j, a) = false
+  payouts : v.payouts.get j = none
+  payQ : ∀ t, v.payQ.has (t, j) = false
+  payForAcc : ∀ a, v.payForAcc.has (a, j) = false
+  payForNode : ∀ a, v.payForNode.has (a, j) = false
+  payForAccNode : ∀ a n, v.payForAccNode.has (a, n, j) = false
+
+theorem SubIdxAtV.of_fresh {v : SubView} {j : Nat} (h : FreshV v j) : SubIdxAtV v j := by
+  obtain ⟨f1, f2, f3, f4, f5, f6, f7, f8, f9, f10, f11⟩ := h
+  have g1 : v.subs.has j = false := Tbl.has_false_of_get f1
+  have g2 : v.payouts.has j = false := Tbl.has_false_of_get f7
+  constructor <;> intros <;> simp_all
+
+theorem mem_allocAddrsForSub (s : State) (id : Nat) (a : Addr) : a ∈ allocAddrsForSub s id ↔ s.allocs.has (id, a) = true := by
+  unfold allocAddrsForSub
+  rw [Tbl.has_iff_mem_keys]
+  simp only [List.mem_map, mem_sortKeys, List.mem_filter, decide_eq_true_eq]
+  constructor
+  · rintro ⟨⟨k1, k2⟩, ⟨hk, rfl⟩, rfl⟩; exact hk
+  · intro h; exact ⟨(id, a), ⟨h, rfl⟩, rfl⟩
+
+theorem removeAllocs_frame (l : List Addr) (s : State) (id : Nat) :
+    removeAllocs s id l = { s with allocs := (removeAllocs s id l).allocs, subForAcc := (removeAllocs s id l).subForAcc } := by
+  unfold removeAllocs
+  induction l generalizing s with
+  | nil => rfl
+  | cons a rest ih => rw [List.foldl_cons, ih]
+
+theorem removeAllocs_allocs (l : List Addr) (s : State) (id : Nat) (k : Nat × Addr) :
+    (removeAllocs s id l).allocs.get k = if k.1 = id ∧ k.2 ∈ l then none else s.allocs.get k := by
+  unfold removeAllocs
+  induction l generalizing s with
+  | nil => simp
+  | cons a rest ih =>
+    rw [List.foldl_cons, ih]
+    simp only [Tbl.get_erase, List.mem_cons]
+    obtain ⟨k1, k2⟩ := k
+    by_cases h1 : k1 = id <;> by_cases h2 : k2 ∈ rest <;> by_cases h3 : k2 = a <;> simp_all <;> grind
+
+theorem removeAllocs_subForAcc (l : List Addr) (s : State) (id : Nat) (k : Addr × Nat) :
+    (removeAllocs s id l).subForAcc.has k = (!decide (k.2 = id ∧ k.1 ∈ l) && s.subForAcc.has k) := by
+  unfold removeAllocs
+  induction l generalizing s with
+  | nil => simp
+  | cons a rest ih =>
+    rw [List.foldl_cons, ih]
+    simp only [Tbl.has_erase, List.mem_cons]
+    obtain ⟨k1, k2⟩ := k
+    by_cases h1 : k2 = id <;> by_cases h2 : k1 ∈ rest <;> by_cases h3 : k1 = a <;> simp_all <;> grind
+
+theorem removeAllocs_nodup (l : List Addr) (s : State) (id : Nat) (h1 : Tbl.Nodup s.allocs) (h2 : Tbl.Nodup s.subForAcc) :
+    Tbl.Nodup (removeAllocs s id l).allocs ∧ Tbl.Nodup (removeAllocs s id l).subForAcc := by
+  unfold removeAllocs
+  induction l generalizing s with
+  | nil => exact ⟨h1, h2⟩
+  | cons a rest ih =>
+    rw [List.foldl_cons]
+    exact ih _ (Tbl.nodup_erase h1 _) (Tbl.nodup_erase h2 _)
+
+theorem removeNodePlainV {v : SubView} {item : Sub} {j : Nat} {n : Addr} {gb hr : Int} {dep : Coin} (hi : SubIdxV v)
+    (hsub : v.subs.get j = some item) (hk : item.kind = .node n gb hr dep) (hr0 : hr = 0) :
+    SubIdxV { v with subQ := v.subQ.erase (item.inactiveAt, j), subForNode := v.subForNode.erase (n, j),
+                     allocs := v.allocs.erase (j, item.addr), subForAcc := v.subForAcc.erase (item.addr, j),
+                     subs := v.subs.erase j } := by
+  refine SubIdxV.local j hi ?_ (SubIdxAtV.of_fresh ?_) ?_
+  · intro i hne
+    constructor <;> intros <;> simp [Tbl.has_set, Tbl.has_erase, Tbl.get_set, Tbl.get_erase, hne, Ne.symm hne]
+  · obtain ⟨a1, a2, a3, a4, a5, a6, a7, a8, a9, a10, a11, a12, a13, a14⟩ := hi.ids j
+    have hsh : v.subs.has j = true := Tbl.has_of_get hsub
+    have hh : isHourly item = false := by simp [isHourly, hk, hr0]
+    have hpl : isPlanSub item = false := by simp [isPlanSub, hk]
+    simp [hsub, hsh, hh, hk, hpl] at a1 a2 a3 a4 a5 a6 a7 a8 a9 a10 a11 a12 a13 a14
+    have hpn : v.payouts.get j = none := Tbl.get_none_of_has a9
+    simp [hpn] at a10 a11 a12 a13 a14
+    constructor <;> intros <;>
+      simp_all [Tbl.has_set, Tbl.has_erase, Tbl.get_set, Tbl.get_erase] <;> grind
+  · obtain ⟨n1, n2, n3, n4, n5, n6, n7, n8, n9, n10, n11⟩ := hi.nodup
+    nodup_tac
+
+theorem removeNodeHourlyV {v : SubView} {item : Sub} {p : Payout} {j : Nat} {n : Addr} {gb hr : Int} {dep : Coin} (hi : SubIdxV v)
+    (hsub : v.subs.get j = some item) (hk : item.kind = .node n gb hr dep) (hr0 : hr ≠ 0) (hst : item.status ≠ .StatusActive)
+    (hp : v.payouts.get j = some p) :
+    SubIdxV { v with subQ := v.subQ.erase (item.inactiveAt, j), subForNode := v.subForNode.erase (n, j),
+                     allocs := v.allocs.erase (j, item.addr), subForAcc := v.subForAcc.erase (item.addr, j),
+                     subs := v.subs.erase j, payouts := v.payouts.erase j, payForAcc := v.payForAcc.erase (p.addr, j),
+                     payForNode := v.payForNode.erase (p.node, j) } := by
+  refine SubIdxV.local j hi ?_ (SubIdxAtV.of_fresh ?_) ?_
+  · intro i hne
+    constructor <;> intros <;> simp [Tbl.has_set, Tbl.has_erase, Tbl.get_set, Tbl.get_erase, hne, Ne.symm hne]
+  · obtain ⟨a1, a2, a3, a4, a5, a6, a7, a8, a9, a10, a11, a12, a13, a14⟩ := hi.ids j
+    have hsh : v.subs.has j = true := Tbl.has_of_get hsub
+    have hph : v.payouts.has j = true := Tbl.has_of_get hp
+    have hh : isHourly item = true := by simp [isHourly, hk, hr0]
+    have hpl : isPlanSub item = false := by simp [isPlanSub, hk]
+    simp [hsub, hsh, hh, hk, hpl, hp, hph, hst] at a1 a2 a3 a4 a5 a6 a7 a8 a9 a10 a11 a12 a13 a14
+    constructor <;> intros <;>
+      simp_all [Tbl.has_set, Tbl.has_erase, Tbl.get_set, Tbl.get_erase] <;> grind
+  · obtain ⟨n1, n2, n3, n4, n5, n6, n7, n8, n9, n10, n11⟩ := hi.nodup
+    nodup_tac
+
+theorem removePlanV {v : SubView} {item : Sub} {j pid : Nat} {d : Denom} {A : Tbl (Nat × Addr) Alloc} {B : Tbl (Addr × Nat) Unit}
+    (hi : SubIdxV v) (hsub : v.subs.get j = some item) (hk : item.kind = .plan pid d)
+    (hA : ∀ k, A.has k = (!decide (k.1 = j) && v.allocs.has k))
+    (hB : ∀ k, B.has k = (!decide (k.2 = j) && v.subForAcc.has k))
+    (nA : Tbl.Nodup A) (nB : Tbl.Nodup B) :
+    SubIdxV { v with subQ := v.subQ.erase (item.inactiveAt, j), subForPlan := v.subForPlan.erase (pid, j),
+                     allocs := A, subForAcc := B, subs := v.subs.erase j } := by
+  refine SubIdxV.local j hi ?_ (SubIdxAtV.of_fresh ?_) ?_
+  · intro i hne
+    constructor <;> intros <;> simp [Tbl.has_set, Tbl.has_erase, Tbl.get_set, Tbl.get_erase, hne, Ne.symm hne, hA, hB]
+  · obtain ⟨a1, a2, a3, a4, a5, a6, a7, a8, a9, a10, a11, a12, a13, a14⟩ := hi.ids j
+    have hsh : v.subs.has j = true := Tbl.has_of_get hsub
+    have hh : isHourly item = false := by simp [isHourly, hk]
+    have hpl : isPlanSub item = true := by simp [isPlanSub, hk]
+    simp [hsub, hsh, hh, hk, hpl] at a1 a2 a3 a4 a5 a6 a7 a8 a9 a10 a11 a12 a13 a14
+    have hpn : v.payouts.get j = none := Tbl.get_none_of_has a9
+    simp [hpn] at a10 a11 a12 a13 a14
+    constructor <;> intros <;>
+      simp_all [Tbl.has_set, Tbl.has_erase, Tbl.get_set, Tbl.get_erase] <;> grind
+  · obtain ⟨n1, n2, n3, n4, n5, n6, n7, n8, n9, n10, n11⟩ := hi.nodup
+    nodup_tac
+
 end Hub.Model
